@@ -85,6 +85,16 @@ func search(seed uint64, n int, t tools) {
 			outcomes["seg-truncated:"+runSegCase(c, t, &evals, false)]++
 		}
 	}
+	if t.segmenter != "" {
+		for i := 0; i < n/5+12; i++ {
+			outcomes["seginit:"+checkSegInit(seed, i, t, &evals)]++
+		}
+	}
+	if t.combine != "" {
+		for i := 0; i < n/25+6; i++ {
+			outcomes["comb:"+checkCombineOutside(seed, i, t, &evals)]++
+		}
+	}
 	searchRest(seed, n, t, &evals, outcomes)
 	keys := make([]string, 0, len(outcomes))
 	for k := range outcomes {
@@ -119,6 +129,11 @@ func runWitness(w string, t tools, evals *int, verbose bool) {
 			os.Exit(2)
 		}
 		fmt.Fprintf(out, "OUTCOME\t%s\n", runSegCase(c, t, evals, verbose))
+	case strings.HasPrefix(w, "seginit|") || strings.HasPrefix(w, "combx|"):
+		if !runWitnessInit(w, t, evals) {
+			fmt.Fprintln(os.Stderr, "bad witness")
+			os.Exit(2)
+		}
 	default:
 		runWitnessRest(w, t, evals, verbose)
 	}
